@@ -47,6 +47,7 @@ struct PerType {
 
 int main(int argc, char** argv) {
     if (int rc = vx::parse_args(argc, argv)) return rc;
+    vx::obit::self_check();
     vx::for_each_int_type<vx::PerType>();
     vx::for_each_int_scalar<vx::PerType>();
     return vx::write_results("t_bit", vx::part_name());
